@@ -505,7 +505,7 @@ pub fn draw<S: Strategy>(seed: u64, name: &str, strat: &S, n: usize) -> Vec<S::V
 pub fn run_prop<S, T, F, J>(ctx: &Ctx, sub: &str, shards: usize, cases_per_shard: u32, make: impl Fn() -> S + Sync, judge: F, to_json: J)
 where
     S: Strategy<Value = T>,
-    T: Debug + Clone,
+    T: Debug + Clone + Send,
     F: Fn(&T, &Probe) -> Judge + Sync,
     J: Fn(&T) -> Value + Sync,
 {
@@ -529,13 +529,48 @@ where
 fn run_prop_one<S, T, F, J>(ctx: &Ctx, sub: &str, shards: usize, cases_per_shard: u32, make: &(impl Fn() -> S + Sync), judge: &F, to_json: &J)
 where
     S: Strategy<Value = T>,
-    T: Debug + Clone,
+    T: Debug + Clone + Send,
     F: Fn(&T, &Probe) -> Judge + Sync,
     J: Fn(&T) -> Value + Sync,
 {
+    // the case each shard is judging right now (for the slow-case monitor below)
+    let current: Vec<Mutex<Option<(Instant, T)>>> = (0..shards).map(|_| Mutex::new(None)).collect();
+    let current = &current;
+    let live = AtomicU64::new(shards as u64);
+    let live = &live;
     std::thread::scope(|sc| {
+        // a case that has been running for two minutes is written out once (replays/<ID>/slow-case-*.json):
+        // if the run ends as "no progress", that file says on which input
+        sc.spawn(move || {
+            let mut written = std::collections::HashSet::new();
+            while live.load(Ordering::SeqCst) > 0 {
+                std::thread::sleep(std::time::Duration::from_millis(500));
+                for (i, slot) in current.iter().enumerate() {
+                    let stuck = match &*slot.lock().unwrap() {
+                        Some((t, c)) if t.elapsed().as_secs() >= 120 && !written.contains(&i) => Some(c.clone()),
+                        _ => None,
+                    };
+                    if let Some(c) = stuck {
+                        written.insert(i);
+                        let dir = verif_root().join("replays").join(&ctx.id);
+                        let _ = std::fs::create_dir_all(&dir);
+                        let path = dir.join(format!("slow-case-{}-{}-seed{}-shard{}.json", sub, ctx.tier.name(), ctx.seed, i));
+                        let doc = json!({"property": ctx.id, "check": sub, "signature": "infra/slow-case", "message": "this case had been running for 120 s when it was written out", "case": to_json(&c)});
+                        let _ = std::fs::write(&path, serde_json::to_string_pretty(&doc).unwrap());
+                        println!("NOTE: a case of {} / {sub} has been running for 120 s; written to {}", ctx.id, path.display());
+                    }
+                }
+            }
+        });
         for shard in 0..shards {
             sc.spawn(move || {
+                struct Done<'a>(&'a AtomicU64);
+                impl Drop for Done<'_> {
+                    fn drop(&mut self) {
+                        self.0.fetch_sub(1, Ordering::SeqCst);
+                    }
+                }
+                let _done = Done(live);
                 let strat = make();
                 let mut runner = new_runner_shrink(ctx.seed, sub, shard as u64, cases_per_shard, ctx.shrink_iters.load(Ordering::Relaxed) as u32);
                 let failed = AtomicBool::new(false);
@@ -549,10 +584,12 @@ where
                     if counting {
                         ctx.eval();
                     }
+                    *current[shard].lock().unwrap() = Some((Instant::now(), case.clone()));
                     let r = match catch(|| judge(&case, &probe)) {
                         Ok(r) => r,
                         Err(p) => Err(Fail::new(format!("harness-or-library-{}", panic_sig(&p)), format!("uncaught panic while judging: {p}"))),
                     };
+                    *current[shard].lock().unwrap() = None;
                     match r {
                         Ok(()) => Ok(()),
                         Err(f) if f.sig.starts_with("infra/") => {
